@@ -216,7 +216,15 @@ func (p *proxy) ServeHTTP(w http.ResponseWriter, r *http.Request) {
 	id := p.newID()
 	verifhook.At("server.id.new")
 	log.Printf("Received new frontend request %q", id)
-	// Filter out hop-by-hop headers from the request
+	// Filter out hop-by-hop headers from the request, including
+	// the ones that the client nominated via the `Connection` header.
+	for _, options := range r.Header.Values("Connection") {
+		for _, option := range strings.Split(options, ",") {
+			if option = strings.TrimSpace(option); option != "" {
+				r.Header.Del(option)
+			}
+		}
+	}
 	for name := range r.Header {
 		if isHopByHopHeader(name) {
 			r.Header.Del(name)
